@@ -2,9 +2,11 @@ package main
 
 import (
 	"fmt"
+	"go/ast"
 	"go/token"
 	"go/types"
 	"path/filepath"
+	"reflect"
 	"sort"
 	"strings"
 
@@ -172,19 +174,19 @@ func checkC19(p *Prog, r *Result, tier string) {
 	// R1
 	type disp struct{ kind, why string }
 	table := map[string]disp{
-		`func/panic("target type must be a *sod.Object")`:           {"documented", "the Assign target must be a *sod.Object (documented misuse)"},
-		`func/panic("target type must be *[]sod.Object")`:           {"documented", "the Assign target must be a *[]sod.Object (documented misuse)"},
-		`(*Schema)/panic("target must be a slice pointer")`:         {"documented", "the AssignIndex target must be a slice pointer (documented misuse)"},
-		`(*Constraints)/panic("interface must be a pointer")`:      {"documented", "only reachable with a pointer (&value); documented contract of the exported method"},
-		`(*FieldDescriptor)/panic(Sprintf("unkwnown type to cast %s"))`: {"internal", "an indexed struct field of an unsupported Go type: a property of the program's struct definition, not of data"},
-		`func/panic(Sprintf("%s is not assignable to %s"))`:         {"internal", "assignability of a value to its own type: cannot fail for values produced by reflect.ValueOf"},
-		`func/panic(error of json.Marshal)`:                         {"internal", "OrPanic helper: serialisation of an object that already passed the serialisation check (C06: ok(SERIALISE)) or of a descriptor"},
-		`func/panic(error of uuid.NewRandom)`:                       {"internal", "entropy source failure"},
-		`(*` + a.IndexedField.Obj().Name() + `)/panic(Errorf("%w %T"))`: {"vetted", "class invariant: values reach the comparators only through the constructor's normalisation or the decoder's validation against the cast (C02.R3, C19.R2); classes of both operands are compared first (C02.R4)"},
+		`func/panic("target type must be a *sod.Object")`:                       {"documented", "the Assign target must be a *sod.Object (documented misuse)"},
+		`func/panic("target type must be *[]sod.Object")`:                       {"documented", "the Assign target must be a *[]sod.Object (documented misuse)"},
+		`(*Schema)/panic("target must be a slice pointer")`:                     {"documented", "the AssignIndex target must be a slice pointer (documented misuse)"},
+		`(*Constraints)/panic("interface must be a pointer")`:                   {"documented", "only reachable with a pointer (&value); documented contract of the exported method"},
+		`(*FieldDescriptor)/panic(Sprintf("unkwnown type to cast %s"))`:         {"internal", "an indexed struct field of an unsupported Go type: a property of the program's struct definition, not of data"},
+		`func/panic(Sprintf("%s is not assignable to %s"))`:                     {"internal", "assignability of a value to its own type: cannot fail for values produced by reflect.ValueOf"},
+		`func/panic(error of json.Marshal)`:                                     {"internal", "OrPanic helper: serialisation of an object that already passed the serialisation check (C06: ok(SERIALISE)) or of a descriptor"},
+		`func/panic(error of uuid.NewRandom)`:                                   {"internal", "entropy source failure"},
+		`(*` + a.IndexedField.Obj().Name() + `)/panic(Errorf("%w %T"))`:         {"vetted", "class invariant: values reach the comparators only through the constructor's normalisation or the decoder's validation against the cast (C02.R3, C19.R2); classes of both operands are compared first (C02.R4)"},
 		`(*` + a.IndexedField.Obj().Name() + `)/panic(ErrUnkownSearchOperator)`: {"vetted", "the operator is validated against the same literal set by every caller (C12.R2)"},
 		`(*` + a.FieldIndex.Obj().Name() + `)/panic("key not found")`:           {"known", "F9f: a schema whose field index has the right size but foreign object ids panics on delete/update"},
 		`(*` + a.FieldIndex.Obj().Name() + `)/panic("object id not found")`:     {"known", "F9f: a schema whose field index has the right size but foreign object ids panics on delete/update"},
-		`goroutine of (*DB)/panic(error of a flush-and-commit call)`: {"known", "F9g: a storage error during a background flush panics (the API has no channel for background errors)"},
+		`goroutine of (*DB)/panic(error of a flush-and-commit call)`:            {"known", "F9g: a storage error during a background flush panics (the API has no channel for background errors)"},
 	}
 	var fnames []string
 	for f := range reachable {
@@ -258,9 +260,40 @@ func checkC19(p *Prog, r *Result, tier string) {
 						}
 					}
 				}
+				// v.Interface().(string) where Kind()==String of the same reflect value was established
+				kindGuard := false
+				if bt, ok := ta.AssertedType.Underlying().(*types.Basic); ok && bt.Kind() == types.String {
+					if ic, ok := ta.X.(*ssa.Call); ok {
+						if g := ic.Call.StaticCallee(); g != nil && g.Name() == "Interface" && g.Signature.Recv() != nil && isNamedFrom(g.Signature.Recv().Type(), "reflect", "Value") && len(ic.Call.Args) > 0 {
+							rv := ic.Call.Args[0]
+							for d := b.Idom(); d != nil; d = d.Idom() {
+								ifi, ok := d.Instrs[len(d.Instrs)-1].(*ssa.If)
+								if !ok {
+									continue
+								}
+								bo, ok := ifi.Cond.(*ssa.BinOp)
+								if !ok || bo.Op != token.EQL || !(d.Succs[0] == b || d.Succs[0].Dominates(b)) {
+									continue
+								}
+								for i, side := range []ssa.Value{bo.X, bo.Y} {
+									other := []ssa.Value{bo.Y, bo.X}[i]
+									kc, ok := side.(*ssa.Call)
+									if !ok || kc.Call.StaticCallee() == nil || kc.Call.StaticCallee().Name() != "Kind" || len(kc.Call.Args) == 0 || kc.Call.Args[0] != rv {
+										continue
+									}
+									if cst, ok := other.(*ssa.Const); ok && cst.Value != nil && cst.Value.String() == fmt.Sprint(int(reflect.String)) {
+										kindGuard = true
+									}
+								}
+							}
+						}
+					}
+				}
 				switch {
 				case guarded:
 					r.Report("C19.R2", name, construct, Discharged, "preceded by a comma-ok assertion of the same value", p.Pos(in.Pos()), nil, true)
+				case kindGuard:
+					r.Report("C19.R2", name, construct, Discharged, "guarded by Kind()==String of the same reflect value; a named string type is a property of the struct definition", p.Pos(in.Pos()), nil, true)
 				case vettedAssert[name] != "":
 					r.Report("C19.R2", name, construct, Discharged, "vetted: "+vettedAssert[name], p.Pos(in.Pos()), nil, true)
 				default:
@@ -385,7 +418,7 @@ func checkC19(p *Prog, r *Result, tier string) {
 			case a.SearchErr:
 				st.User |= 1
 			case a.SearchFields:
-				if exempt[FuncName(st.top().fn)] {
+				if exempt[FuncName(st.top().fn)] || onlyLenOf(ev.Instr) {
 					return // only the length is read there
 				}
 				fn := FuncName(l.root)
@@ -397,6 +430,34 @@ func checkC19(p *Prog, r *Result, tier string) {
 			}
 		}}
 	}, nil)
+}
+
+// onlyLenOf: the loaded value is used for its length only.
+func onlyLenOf(in ssa.Instruction) bool {
+	if c, ok := in.(*ssa.Call); ok {
+		if bi, ok := c.Call.Value.(*ssa.Builtin); ok && bi.Name() == "len" {
+			return true
+		}
+	}
+	ld, ok := in.(*ssa.UnOp)
+	if !ok || ld.Referrers() == nil {
+		return false
+	}
+	n := 0
+	for _, rf := range *ld.Referrers() {
+		switch u := rf.(type) {
+		case *ssa.DebugRef:
+		case *ssa.Call:
+			if bi, ok := u.Call.Value.(*ssa.Builtin); ok && bi.Name() == "len" {
+				n++
+				continue
+			}
+			return false
+		default:
+			return false
+		}
+	}
+	return n > 0
 }
 
 func init() { register("C19", checkC19) }
@@ -419,7 +480,18 @@ func sameValue(a, b ssa.Value) bool {
 	}
 	na, fa, ba := loadedField(a)
 	nb, fb, bb := loadedField(b)
-	return na != nil && na == nb && fa == fb && ba == bb
+	if na != nil && na == nb && fa == fb && ba == bb {
+		return true
+	}
+	// two loads of the same local variable (a slice whose address was taken is re-loaded at every use)
+	if la, ok := a.(*ssa.UnOp); ok && la.Op == token.MUL {
+		if lb, ok := b.(*ssa.UnOp); ok && lb.Op == token.MUL {
+			if al, ok := la.X.(*ssa.Alloc); ok && la.X == lb.X && !al.Heap || (ok && la.X == lb.X) {
+				return true
+			}
+		}
+	}
+	return false
 }
 
 // lenGuarded: some dominating block ends in a branch on a comparison involving len(same container).
@@ -460,12 +532,46 @@ func lenGuarded(at ssa.Instruction, cont ssa.Value) bool {
 		}
 		return false
 	}
+	// a predicate helper of the same type whose body compares with len of the same field (`if it.exhausted()`)
+	viaHelper := func(v ssa.Value) bool {
+		for {
+			if u, ok := v.(*ssa.UnOp); ok && u.Op == token.NOT {
+				v = u.X
+				continue
+			}
+			break
+		}
+		call, ok := v.(*ssa.Call)
+		if !ok {
+			return false
+		}
+		g := call.Call.StaticCallee()
+		if g == nil || g.Blocks == nil || g.Signature.Recv() == nil {
+			return false
+		}
+		cn, cf, _ := loadedField(cont)
+		if cn == nil || named(g.Signature.Recv().Type()) != cn {
+			return false
+		}
+		for _, gb := range g.Blocks {
+			for _, gi := range gb.Instrs {
+				if lc, ok := gi.(*ssa.Call); ok {
+					if bi, ok := lc.Call.Value.(*ssa.Builtin); ok && bi.Name() == "len" {
+						if n2, f2, _ := loadedField(lc.Call.Args[0]); n2 == cn && f2 == cf {
+							return true
+						}
+					}
+				}
+			}
+		}
+		return false
+	}
 	b := at.Block()
 	for d := b; d != nil; d = d.Idom() {
 		if d == b {
 			continue
 		}
-		if ifi, ok := d.Instrs[len(d.Instrs)-1].(*ssa.If); ok && mentionsLen(ifi.Cond) {
+		if ifi, ok := d.Instrs[len(d.Instrs)-1].(*ssa.If); ok && (mentionsLen(ifi.Cond) || viaHelper(ifi.Cond)) {
 			return true
 		}
 	}
@@ -626,97 +732,223 @@ func reflectDesc(v ssa.Value) string {
 	return "a value"
 }
 
-// reflectUnsafePath: is there a feasible CFG path from the entry to block `to` on which the receiver was not validated?
-func reflectUnsafePath(fn *ssa.Function, to *ssa.BasicBlock, recv, elemOf ssa.Value, isReflectMethod func(ssa.Value, ...string) (*ssa.Call, bool)) bool {
-	type facts map[string]bool
-	key := func(kind string, v ssa.Value, k string) string { return kind + "/" + v.Name() + "/" + k }
-	found := false
+// reflectFacts: what the branches of a path established about reflect values ("m/<value>/<Method>" -> truth,
+// "kind/<value>/<K>" -> truth).
+type reflectFacts map[string]bool
+
+func rfKey(kind string, v ssa.Value, k string) string { return kind + "/" + v.Name() + "/" + k }
+
+func (f reflectFacts) safeFor(recv, elemOf ssa.Value) bool {
+	for _, m := range []string{"CanInterface", "CanSet", "IsValid"} {
+		if f[rfKey("m", recv, m)] {
+			return true
+		}
+	}
+	if elemOf != nil {
+		if v, ok := f[rfKey("m", elemOf, "IsNil")]; ok && !v {
+			return true
+		}
+	}
+	return false
+}
+
+// merge returns the union of two fact sets, or nil when they contradict each other.
+func (f reflectFacts) merge(g reflectFacts) reflectFacts {
+	out := reflectFacts{}
+	for k, v := range f {
+		out[k] = v
+	}
+	for k, v := range g {
+		if cur, ok := out[k]; ok && cur != v {
+			return nil
+		}
+		out[k] = v
+	}
+	// one kind per value
+	kinds := map[string]string{}
+	for k, v := range out {
+		if v && strings.HasPrefix(k, "kind/") {
+			parts := strings.SplitN(k, "/", 3)
+			if prev, ok := kinds[parts[1]]; ok && prev != parts[2] {
+				return nil
+			}
+			kinds[parts[1]] = parts[2]
+		}
+	}
+	return out
+}
+
+// reflectPaths enumerates the feasible CFG paths from the entry of fn to block `to` and returns the fact set of each.
+func reflectPaths(fn *ssa.Function, to *ssa.BasicBlock, isReflectMethod func(ssa.Value, ...string) (*ssa.Call, bool)) []reflectFacts {
+	var out []reflectFacts
 	visits := map[*ssa.BasicBlock]int{}
-	var walk func(b *ssa.BasicBlock, f facts, safe bool)
-	walk = func(b *ssa.BasicBlock, f facts, safe bool) {
-		if found || visits[b] > 64 {
+	var walk func(b, prev *ssa.BasicBlock, f reflectFacts)
+	walk = func(b, prev *ssa.BasicBlock, f reflectFacts) {
+		if visits[b] > 64 || len(out) > 256 {
 			return
 		}
 		visits[b]++
 		if b == to {
-			if !safe {
-				found = true
-			}
+			out = append(out, f)
 			return
 		}
 		ifi, ok := b.Instrs[len(b.Instrs)-1].(*ssa.If)
 		if !ok {
 			for _, s := range b.Succs {
-				walk(s, f, safe)
+				walk(s, b, f)
 			}
 			return
 		}
 		for edge, s := range b.Succs {
 			truth := edge == 0
 			cond := ifi.Cond
+			feasible := true
 			for {
 				if u, ok := cond.(*ssa.UnOp); ok && u.Op == token.NOT {
 					cond, truth = u.X, !truth
 					continue
 				}
+				// a && / || materialised as a phi of this block: the operand that came in with the path's predecessor
+				if ph, ok := cond.(*ssa.Phi); ok && ph.Block() == b && prev != nil {
+					var in ssa.Value
+					for i, pb := range b.Preds {
+						if pb == prev && i < len(ph.Edges) {
+							in = ph.Edges[i]
+						}
+					}
+					if in == nil {
+						break
+					}
+					if c, ok := in.(*ssa.Const); ok && c.Value != nil {
+						if (c.Value.String() == "true") != truth {
+							feasible = false
+						}
+						cond = nil
+						break
+					}
+					cond = in
+					continue
+				}
 				break
 			}
-			nf := f
-			nsafe := safe
-			feasible := true
-			set := func(k string, val bool) {
-				if cur, ok := nf[k]; ok {
-					if cur != val {
-						feasible = false
-					}
-					return
-				}
-				c := facts{}
-				for a, b := range nf {
-					c[a] = b
-				}
-				c[k] = val
-				nf = c
+			if !feasible {
+				continue
 			}
-			if c, ok := isReflectMethod(cond, "CanInterface", "CanSet", "IsValid", "IsNil"); ok {
-				arg := c.Call.Args[0]
-				name := c.Call.StaticCallee().Name()
-				set(key("m", arg, name), truth)
-				if feasible {
-					if name == "IsNil" && !truth && elemOf != nil && arg == elemOf {
-						nsafe = true
-					}
-					if name != "IsNil" && truth && arg == recv {
-						nsafe = true
-					}
-				}
-			} else if bo, ok := cond.(*ssa.BinOp); ok && (bo.Op == token.EQL || bo.Op == token.NEQ) {
-				for i, a := range []ssa.Value{bo.X, bo.Y} {
-					o := []ssa.Value{bo.Y, bo.X}[i]
-					if kc, ok := isReflectMethod(a, "Kind"); ok {
-						if cst, ok := o.(*ssa.Const); ok && cst.Value != nil {
-							eq := (bo.Op == token.EQL) == truth
-							k := key("kind", kc.Call.Args[0], cst.Value.String())
-							set(k, eq)
-							if feasible && eq {
-								// the kind of a value is one thing: any other kind already known true is a contradiction
-								for other, val := range nf {
-									if val && other != k && strings.HasPrefix(other, "kind/"+kc.Call.Args[0].Name()+"/") {
-										feasible = false
-									}
-								}
+			add := reflectFacts{}
+			if cond != nil {
+				if c, ok := isReflectMethod(cond, "CanInterface", "CanSet", "IsValid", "IsNil"); ok {
+					add[rfKey("m", c.Call.Args[0], c.Call.StaticCallee().Name())] = truth
+				} else if bo, ok := cond.(*ssa.BinOp); ok && (bo.Op == token.EQL || bo.Op == token.NEQ) {
+					for i, a := range []ssa.Value{bo.X, bo.Y} {
+						o := []ssa.Value{bo.Y, bo.X}[i]
+						if kc, ok := isReflectMethod(a, "Kind"); ok {
+							if cst, ok := o.(*ssa.Const); ok && cst.Value != nil {
+								add[rfKey("kind", kc.Call.Args[0], cst.Value.String())] = (bo.Op == token.EQL) == truth
 							}
 						}
 					}
 				}
 			}
-			if feasible {
-				walk(s, nf, nsafe)
+			if nf := f.merge(add); nf != nil {
+				walk(s, b, nf)
 			}
 		}
 	}
-	walk(fn.Blocks[0], facts{}, false)
-	return found
+	walk(fn.Blocks[0], nil, reflectFacts{})
+	return out
+}
+
+// reflectUnsafePath: is there a feasible path to block `to` of fn on which the receiver was not validated? When the
+// receiver (or the value it is the Elem of) is a parameter of an unexported function, the facts established by every
+// caller on the way to its call sites count too (translated to the parameter).
+func reflectUnsafePath(fn *ssa.Function, to *ssa.BasicBlock, recv, elemOf ssa.Value, isReflectMethod func(ssa.Value, ...string) (*ssa.Call, bool)) bool {
+	var unsafe []reflectFacts
+	for _, f := range reflectPaths(fn, to, isReflectMethod) {
+		if !f.safeFor(recv, elemOf) {
+			unsafe = append(unsafe, f)
+		}
+	}
+	if len(unsafe) == 0 {
+		return false
+	}
+	// which parameter carries the value?
+	pidx := -1
+	for i, prm := range fn.Params {
+		if ssa.Value(prm) == recv || (elemOf != nil && ssa.Value(prm) == elemOf) {
+			pidx = i
+		}
+	}
+	if pidx < 0 || fn.Object() == nil || ast.IsExported(fn.Name()) {
+		return true
+	}
+	prm := fn.Params[pidx]
+	sites := 0
+	for _, caller := range callersOf(fn) {
+		for _, b := range caller.Blocks {
+			for _, in := range b.Instrs {
+				ci, ok := in.(ssa.CallInstruction)
+				if !ok || ci.Common().StaticCallee() != fn || pidx >= len(ci.Common().Args) {
+					continue
+				}
+				sites++
+				arg := ci.Common().Args[pidx]
+				for _, g := range reflectPaths(caller, b, isReflectMethod) {
+					// translate the caller's facts about the argument into facts about the parameter
+					tr := reflectFacts{}
+					for k, v := range g {
+						parts := strings.SplitN(k, "/", 3)
+						if len(parts) == 3 && parts[1] == arg.Name() {
+							tr[parts[0]+"/"+prm.Name()+"/"+parts[2]] = v
+						}
+					}
+					for _, u := range unsafe {
+						if m := tr.merge(u); m != nil && !m.safeFor(recv, elemOf) {
+							return true
+						}
+					}
+				}
+			}
+		}
+	}
+	return sites == 0
+}
+
+// callersOf: the functions of the same package that call fn statically.
+func callersOf(fn *ssa.Function) []*ssa.Function {
+	var out []*ssa.Function
+	if fn.Pkg == nil {
+		return out
+	}
+	var scan func(f *ssa.Function)
+	scan = func(f *ssa.Function) {
+		for _, b := range f.Blocks {
+			for _, in := range b.Instrs {
+				if ci, ok := in.(ssa.CallInstruction); ok && ci.Common().StaticCallee() == fn {
+					out = append(out, f)
+					return
+				}
+			}
+		}
+	}
+	for _, m := range fn.Pkg.Members {
+		switch v := m.(type) {
+		case *ssa.Function:
+			scan(v)
+			for _, an := range v.AnonFuncs {
+				scan(an)
+			}
+		case *ssa.Type:
+			for _, t := range []types.Type{v.Type(), types.NewPointer(v.Type())} {
+				ms := fn.Prog.MethodSets.MethodSet(t)
+				for i := 0; i < ms.Len(); i++ {
+					if mf := fn.Prog.MethodValue(ms.At(i)); mf != nil && mf.Pkg == fn.Pkg {
+						scan(mf)
+					}
+				}
+			}
+		}
+	}
+	return out
 }
 
 // ---- C19.R8 / R9: decoded index versus descriptors; maps of the decoded index --------------------------------
